@@ -21,9 +21,9 @@ Internal: `rt_c12.py --print in.json out.json` prints specs in a fresh interpret
 import io, json, os, random, signal, subprocess, sys, time, contextlib
 import multiprocessing as mpr
 
-FULL_LEAVES = [["x"], ["a", 0], ["a", 1], ["a", 2]] + [["int", n] for n in (-3, -2, -1, 1, 2, 3)] + \
+FULL_LEAVES = [["x"], ["a", 0], ["a", 1], ["a", 2], ["a", 3]] + [["int", n] for n in (-3, -2, -1, 1, 2, 3)] + \
               [["rat", 1, 2], ["rat", -3, 2], ["rat", 2, 3], ["rat", -1, 2]]
-CORE_LEAVES = [["x"], ["a", 0], ["a", 1], ["int", 2], ["int", -1], ["int", -3], ["rat", 1, 2], ["rat", -3, 2]]
+CORE_LEAVES = [["x"], ["a", 0], ["a", 1], ["a", 3], ["int", 2], ["int", -1], ["int", -3], ["rat", 1, 2], ["rat", -3, 2]]
 MINI_LEAVES = [["x"], ["a", 0], ["int", -2], ["rat", 1, 2]]
 LEAFSETS = {"full": FULL_LEAVES, "core": CORE_LEAVES, "mini": MINI_LEAVES}
 IPOWS = (-3, -2, -1, 2, 3)
